@@ -291,6 +291,10 @@ class Model(object):
           return mp.log(*args)
         if fn == "fsum":
           return sum(args, mpf(0))
+        if fn == "degrees":
+          return args[0] * 180 / mp.pi
+        if fn == "radians":
+          return args[0] * mp.pi / 180
         if fn == "copysign":
           return abs(args[0]) if args_at[1] >= 0 else -abs(args[0])
         if fn == "floor":
